@@ -5,7 +5,8 @@ import os
 from . import core, tlaval, dsdlio
 
 NAMES = {"X": 1, "Y": 2, "Z": 3, "x": 4, "y": 5, "a": 6}
-NS = {1: "a", 2: "b", 3: "a"}
+NS = {1: "a", 2: "b", 3: "a", 5: "b"}
+PHYS = {1: 1, 2: 2, 3: 3, 5: 2}        # directory 5 is directory 2 again: a second file of the same name and version
 
 def idnum(i) -> int:
     return i["dir"] * 1000 + NAMES[i["name"]] * 100 + i["maj"] * 10 + i["min"]
@@ -14,6 +15,8 @@ def idkey(i):
     return (i["dir"], i["name"], i["maj"], i["min"])
 
 def relpath(i) -> str:
+    if i["dir"] == 5:      # legacy suffix (a port-ID prefix would bring the minor-version port rules of C11 into play)
+        return "d2/b/%s.%d.%d.uavcan" % (i["name"], i["maj"], i["min"])
     return "d%d/%s/%s.%d.%d.dsdl" % (i["dir"], NS[i["dir"]], i["name"], i["maj"], i["min"])
 
 def ref_text(r) -> str:
@@ -53,7 +56,12 @@ def path_to_id(root: str, p):
     parts = rel.split(os.sep)
     try:
         dirn = int(parts[0][1:])
-        name, maj, mnr = parts[-1].split(".")[:3]
+        fields = parts[-1].split(".")
+        if fields[-1] == "uavcan" or fields[0].isdigit():
+            dirn = 5
+        if fields[0].isdigit():
+            fields = fields[1:]
+        name, maj, mnr = fields[:3]
         return (dirn, name, int(maj), int(mnr))
     except Exception:
         return ("?", rel)
